@@ -2,7 +2,7 @@
 (* Trace validation for C16 (library side).  One line = one call of a real minifier through
    the public registry API under one option configuration (harness/cmd/c16):
      [lang, o (option record), err, panic, tierr, toerr, ti, to (token streams of input and
-      output), si, so (template spans); for lang = "js": fi fo idi ido dci dco ni no pvi pvo]
+      output), tz (html: token stream of the output with the comment/attribute options off), si, so (template spans); for lang = "js": fi fo idi ido dci dco ni no pvi pvo]
    Every clause is "option is on => its relation of spec/Options.tla holds"; the antecedents
    are never vacuous on generated documents (spec/OptGen.tla, invariant Discriminating). *)
 EXTENDS Options, TraceIO
@@ -12,7 +12,7 @@ Next == l <= N /\ l' = l + 1
 Spec == Init /\ [][Next]_l
 
 HtmlOK(e) ==
-  LET cl == HtmlClauses(e.ti, e.to, e.o, e.si, e.so)
+  LET cl == HtmlClauses(e.ti, e.to, e.o, e.si, e.so, e.tz)
   IN \A i \in 1..Len(cl) : cl[i].ok \/ Reject(l, cl[i].name)
 
 XmlOK(e) ==
